@@ -31,7 +31,7 @@ use sage_core::mass::Tolerance;
 use sage_core::spectrum::{RawSpectrum, Representation};
 use std::io::{Read, Write};
 
-pub const OPS: &[&str] = &["mzml", "mzmlraw"];
+pub const OPS: &[&str] = &["mzml", "mzmlraw", "mzmlseq"];
 pub const INFO: Info = Info {
     rule: "mzml: documents of 1-5 schema-shaped <spectrum> elements built from a random description (MS level 1-3, \
            centroid/profile, TIC, 0-2 scans with start time in s/min, injection time, ion mobility in scan or \
@@ -58,7 +58,10 @@ pub const INFO: Info = Info {
            breaks, pretty-printing white space, tab/CRLF, foreign and URL-safe characters, `=` in the middle or in \
            excess, `<binary></binary>` vs `<binary/>` vs white space only - the request states what base64 0.13 and \
            zlib make of the text (checked against the crates by the harness and against the model's b64decode by the \
-           driver), accepted texts must yield the model's values; mzmlraw: EVERY truncation offset of a small \
+           driver), accepted texts must yield the model's values; mzmlseq: sequences of 2-5 documents parsed back to back on one OS thread (direct parse, read_spectra on \
+           files, on gzip files) and then each alone on a fresh thread: documents that fail inside the inflation of a \
+           several-KB zlib array (cut, corrupted), in base64, on a bad entity, on a missing id, followed by healthy \
+           documents whose first array is a small zlib array; mzmlraw: EVERY truncation offset of a small \
            two-spectrum document, truncations, \
            byte flips, deletions, duplications, insertions and concatenations of rendered documents. \
            Non-trivial = at least two events inside a <spectrum>; distinct by request line",
@@ -747,39 +750,57 @@ fn parse_via_file(gz: bool, style: u64, sn: Option<u8>, doc: &[u8]) -> String {
     }
 }
 
+/// one document of a request: `<style> <filter> <sn> <n> event…`, with the request's claims about base64 / zlib
+/// checked against the real crates
+fn read_checked_doc(t: &mut Toks) -> Option<(u64, Option<u8>, Option<u8>, Vec<Ev>)> {
+    let style: u64 = t.tok()?.parse().ok()?;
+    let filter = t.opt(|t| t.usize())?.map(|x| x as u8);
+    let sn = t.opt(|t| t.usize())?.map(|x| x as u8);
+    let evs = read_events(t)?;
+    // the request states what zlib makes of each payload; do not take its word for it
+    let mut prev_text = false;
+    for e in &evs {
+        if let Ev::Text(p) = e {
+            if prev_text {
+                return None; // adjacent text nodes would merge into one
+            }
+            if let Payload::Data(w, i) = p {
+                if inflate(w) != *i {
+                    return None;
+                }
+            }
+            if let Payload::Raw(t, d, i) = p {
+                // the request's claims are checked against the real crates
+                if t.contains(['&', '<']) || base64::decode(t).ok() != *d {
+                    return None;
+                }
+                if d.as_ref().and_then(|b| inflate(b)) != *i {
+                    return None;
+                }
+            }
+        }
+        prev_text = matches!(e, Ev::Text(p) if *p != Payload::Empty && *p != Payload::Raw(String::new(), Some(vec![]), None));
+    }
+    Some((style, filter, sn, evs))
+}
+
+/// one document through the chosen route, a panic being a result like any other
+fn parse_routed(route: u64, style: u64, filter: Option<u8>, sn: Option<u8>, doc: &[u8]) -> String {
+    let doc = doc.to_vec();
+    std::panic::catch_unwind(move || match (route, filter) {
+        (1, None) => parse_via_file(false, style, sn, &doc),
+        (2, None) => parse_via_file(true, style, sn, &doc),
+        _ => parse_direct(filter, sn, &doc),
+    })
+    .unwrap_or_else(|_| "panic".into())
+}
+
 pub fn exec(op: &str, t: &mut Toks) -> Option<String> {
     match op {
         "mzml" => {
-            let style: u64 = t.tok()?.parse().ok()?;
-            let filter = t.opt(|t| t.usize())?.map(|x| x as u8);
-            let sn = t.opt(|t| t.usize())?.map(|x| x as u8);
-            let evs = read_events(t)?;
+            let (style, filter, sn, evs) = read_checked_doc(t)?;
             if !t.done() {
                 return None;
-            }
-            // the request states what zlib makes of each payload; do not take its word for it
-            let mut prev_text = false;
-            for e in &evs {
-                if let Ev::Text(p) = e {
-                    if prev_text {
-                        return None; // adjacent text nodes would merge into one
-                    }
-                    if let Payload::Data(w, i) = p {
-                        if inflate(w) != *i {
-                            return None;
-                        }
-                    }
-                    if let Payload::Raw(t, d, i) = p {
-                        // the request's claims are checked against the real crates
-                        if t.contains(['&', '<']) || base64::decode(t).ok() != *d {
-                            return None;
-                        }
-                        if d.as_ref().and_then(|b| inflate(b)) != *i {
-                            return None;
-                        }
-                    }
-                }
-                prev_text = matches!(e, Ev::Text(p) if *p != Payload::Empty && *p != Payload::Raw(String::new(), Some(vec![]), None));
             }
             let doc = render(style, &evs);
             if std::env::var_os("VERIF_C16_DUMP").is_some() {
@@ -790,6 +811,34 @@ pub fn exec(op: &str, t: &mut Toks) -> Option<String> {
                 (2, None) => parse_via_file(true, style, sn, &doc),
                 _ => parse_direct(filter, sn, &doc),
             })
+        }
+        "mzmlseq" => {
+            // k documents parsed back to back on ONE fresh OS thread, then each alone on its own fresh thread
+            let route: u64 = t.tok()?.parse().ok()?;
+            let docs = t.list(|t| read_checked_doc(t))?;
+            if !t.done() {
+                return None;
+            }
+            let rendered: Vec<(u64, Option<u8>, Option<u8>, Vec<u8>)> =
+                docs.iter().map(|(style, f, sn, evs)| (*style, *f, *sn, render(*style, evs))).collect();
+            let seq_docs = rendered.clone();
+            let in_seq: Vec<String> = std::thread::spawn(move || {
+                seq_docs.iter().map(|(style, f, sn, d)| parse_routed(route, *style, *f, *sn, d)).collect()
+            })
+            .join()
+            .ok()?;
+            let alone: Vec<String> = rendered
+                .into_iter()
+                .map(|(style, f, sn, d)| {
+                    std::thread::spawn(move || parse_routed(route, style, f, sn, &d)).join().unwrap_or_else(|_| "panic".into())
+                })
+                .collect();
+            let mut o = Out::new();
+            o.n(in_seq.len());
+            for r in in_seq.iter().chain(alone.iter()) {
+                o.raw(r);
+            }
+            Some(o.finish())
         }
         "mzmlraw" => {
             let filter = t.opt(|t| t.usize())?.map(|x| x as u8);
@@ -1974,6 +2023,142 @@ pub fn gen(rng: &mut Rng, tier: Tier, emit: &mut dyn FnMut(Case)) {
         o.bytes(&d);
         emit(Case::new(o.finish()).tag("raw-mutation").tag(tag));
     }
+    // --- S: sequences of documents on one thread: a document's result must not depend on the documents parsed
+    //         (or half-parsed) before it
+    {
+        let doc_tokens = |style: u64, sn: Option<u8>, evs: &[Ev]| -> String {
+            request(style, None, sn, evs).strip_prefix("mzml ").unwrap().to_string()
+        };
+        // a spectrum whose big zlib array breaks AFTER the inflater has produced output
+        let zfail = |rng: &mut Rng, raw_len: usize| -> Vec<Ev> {
+            let is64 = rng.chance(1, 2);
+            let nvals = raw_len / if is64 { 8 } else { 4 };
+            let mut bytes = Vec::new();
+            // a palette of values: compresses well, so that a few KB of zlib text inflate to tens of KB - the reader's
+            // inflater hands over its output in 4 KB pieces, only complete pieces survive a failure
+            let palette: Vec<f64> = (0..40).map(|_| 400.0 + (rng.unit() * 2000.0).round() / 10.0).collect();
+            for _ in 0..nvals {
+                let v = *rng.pick(&palette);
+                if is64 {
+                    bytes.extend(v.to_le_bytes());
+                } else {
+                    bytes.extend((v as f32).to_le_bytes());
+                }
+            }
+            let good = deflate(&bytes);
+            let mut wire = good.clone();
+            for _ in 0..50 {
+                wire = good.clone();
+                match rng.below(3) {
+                    0 => wire.truncate(good.len() * 6 / 10 + rng.below(good.len() / 4)),
+                    1 => {
+                        let at = good.len() * 6 / 10 + rng.below(good.len() / 4);
+                        wire[at] ^= 0xff;
+                        wire[at + 1] ^= 0x55;
+                    }
+                    _ => {
+                        let at = good.len() * 3 / 4;
+                        for b in wire[at..at + 16].iter_mut() {
+                            *b = 0xff;
+                        }
+                    }
+                }
+                if inflate(&wire).is_none() {
+                    break;
+                }
+            }
+            let arr = Arr {
+                params: vec![flag(*rng.pick(&[MZ, INT])), flag(if is64 { F64 } else { F32 }), flag(ZLIB)],
+                payload: Payload::Data(wire.clone(), inflate(&wire)),
+            };
+            let mut e = El { id: "damaged".into(), ..Default::default() };
+            e.params.push(p(LEVEL, Val::N(2)));
+            if rng.chance(1, 2) {
+                e.arrays.push(gen_arr(rng, INT, 3, false));
+            }
+            e.arrays.push(arr);
+            doc_events(&[e], rng, 0)
+        };
+        // a healthy document whose FIRST array is a small zlib array
+        let healthy = |rng: &mut Rng| -> Vec<Ev> {
+            let mut e = El { id: "healthy".into(), ..Default::default() };
+            e.params.push(p(LEVEL, Val::N(2)));
+            let is64 = rng.chance(1, 2);
+            let vals = [100.25f64, 200.5, 300.75];
+            let bytes: Vec<u8> = if is64 {
+                vals.iter().flat_map(|x| x.to_le_bytes()).collect()
+            } else {
+                vals.iter().flat_map(|x| (*x as f32).to_le_bytes()).collect()
+            };
+            e.arrays.push(Arr {
+                params: vec![flag(MZ), flag(if is64 { F64 } else { F32 }), flag(ZLIB)],
+                payload: mk_payload(bytes, true),
+            });
+            e.arrays.push(gen_arr(rng, INT, 3, false));
+            let mut els = vec![e];
+            if rng.chance(1, 2) {
+                els.push(gen_el(rng, 1, &Opts { level: 2, noise_cv: 0, rich: Some(true) }));
+            }
+            let junk = if rng.chance(1, 2) { 0 } else { 15 };
+            doc_events(&els, rng, junk)
+        };
+        let other_fail = |rng: &mut Rng, which: usize| -> Vec<Ev> {
+            let mut evs = healthy(rng);
+            match which {
+                0 => {
+                    // base64 failure inside a zlib-declared array
+                    if let Some(k) = evs.iter().position(|e| matches!(e, Ev::Text(_))) {
+                        evs[k] = Ev::Text(Payload::Bad);
+                    }
+                }
+                1 => {
+                    let k = evs.iter().rposition(|e| matches!(e, Ev::Start(Tag::Sp, _, _))).unwrap();
+                    evs[k] = Ev::StartBad(Tag::Sp);
+                }
+                _ => {
+                    let k = evs.iter().rposition(|e| matches!(e, Ev::Start(Tag::Sp, _, _))).unwrap();
+                    evs[k] = Ev::Start(Tag::Sp, None, None);
+                }
+            }
+            evs
+        };
+        let reps = if quick { 1 } else { 12 };
+        for rep in 0..reps {
+            for pattern in 0..8usize {
+                for route in 0..3u64 {
+                    // raw size 80-130 KB: the inflater works through a 32 KB window, a failure inside the first window leaves
+                    // nothing behind; only later failures come after output has been handed over
+                    let nvals = 80_000 + rng.below(if quick { 20_000 } else { 50_000 });
+                    let docs: Vec<Vec<Ev>> = match pattern {
+                        0 => vec![zfail(rng, nvals), healthy(rng)],
+                        1 => vec![healthy(rng), zfail(rng, nvals), healthy(rng)],
+                        2 => vec![zfail(rng, nvals), zfail(rng, nvals * 2 / 3), healthy(rng), healthy(rng)],
+                        3 => vec![other_fail(rng, 0), healthy(rng)],
+                        4 => vec![other_fail(rng, 1), healthy(rng)],
+                        5 => vec![zfail(rng, nvals), other_fail(rng, 2), healthy(rng)],
+                        6 => vec![healthy(rng), healthy(rng)],
+                        _ => vec![healthy(rng), zfail(rng, nvals), other_fail(rng, 0), zfail(rng, nvals), healthy(rng)],
+                    };
+                    let sn = if rep % 2 == 1 { Some(2u8) } else { None };
+                    let mut o = Out::new();
+                    o.raw("mzmlseq").n(route).n(docs.len());
+                    for d in &docs {
+                        let t = doc_tokens(style_for(rng, route), sn, d);
+                        o.raw(&t);
+                    }
+                    emit(Case::new(o.finish())
+                        .tag("sequence")
+                        .tag(["seq:route-direct", "seq:route-file", "seq:route-gzip-file"][route as usize])
+                        .tag([
+                            "seq:zlib-fail,healthy", "seq:healthy,zlib-fail,healthy", "seq:zlib-fail x2,healthy x2",
+                            "seq:base64-fail,healthy", "seq:xml-fail,healthy", "seq:zlib-fail,malformed,healthy",
+                            "seq:healthy x2", "seq:mixed-5",
+                        ][pattern]));
+                }
+            }
+        }
+    }
+
     // --- H2: EVERY truncation offset of a small two-spectrum document (padded 32-bit, zlib 64-bit, unpadded-length
     //          payloads): a document cut inside a base64 text hands the decoder a text of any length mod 4
     {
